@@ -732,6 +732,7 @@ func (p *Process) isOneOfStates(states ...string) bool {
 func (p *Process) setState(state string) {
 	p.stateMtx.Lock()
 	defer p.stateMtx.Unlock()
+	verifPoint(p, "state_enter", state)
 	p.procState.Status = state
 	p.onStateChange(state)
 }
@@ -764,13 +765,13 @@ func (p *Process) getStatusName() string {
 func (p *Process) setStateAndRun(state string, runnable func() error) error {
 	p.stateMtx.Lock()
 	defer p.stateMtx.Unlock()
+	verifPoint(p, "state_enter", state)
 	p.procState.Status = state
 	p.onStateChange(state)
 	return runnable()
 }
 
 func (p *Process) onStateChange(state string) {
-	verifPoint(p, "state_enter", state)
 	defer verifPoint(p, "state", state)
 	switch state {
 	case types.ProcessStateSkipped:
